@@ -1,5 +1,6 @@
 (* C24 model-side runner: same case lines as harness/src/bin/impl_c24.rs.
    zf <mode> <hexfile>      -> items of the zone-file iterator (mode = how the real Reader is fed; ignored here)
+   zro <mode> <hexfile>     -> items of the records-only iterator (Parser::records_only())
    u8|u16|u32|ip4|ip6|class|type <hexstring> -> the std / mnemonic parsers
    Oracle column: `-` (the property predicate of C24 is evaluated on the implementation line by
    checks/c24.py: no panic, nothing after the first error, every record valid). *)
@@ -50,20 +51,24 @@ let kind (k : ZfReader.zkind) = let open ZfReader in match k with
 let show_name (nm : NameWire.name) =
   Printf.sprintf "%s/%d" (hex nm.NameWire.n_wire) (Stdlib.List.length nm.NameWire.n_offsets)
 
+let show_record n (r : ZfParser.rr) =
+  let v = match ZfParser.rdata_validate r.ZfParser.rr_class r.ZfParser.rr_type r.ZfParser.rr_rdata with
+    | Res.Ok true -> "ok" | Res.Ok false -> "bad" | Res.Err _ -> "unmodelled" | Res.Panic -> "panic" in
+  Printf.sprintf "R%d o=%s t=%d c=%d y=%d d=%s v=%s" n (show_name r.ZfParser.rr_owner)
+    (int_of_n r.ZfParser.rr_ttl) (int_of_n r.ZfParser.rr_class) (int_of_n r.ZfParser.rr_type)
+    (hex r.ZfParser.rr_rdata) v
+
+let show_error (p, k) =
+  Printf.sprintf "E%d:%d %s" (int_of_n p.ZfReader.p_line) (int_of_n p.ZfReader.p_col) (kind k)
+
 let show_item (it : (ZfParser.line, ZfReader.pos * ZfReader.zkind) Datatypes.sum) = match it with
   | Datatypes.Coq_inl l ->
     let n = int_of_n l.ZfParser.l_number in
     (match l.ZfParser.l_content with
-     | ZfParser.CRecord r ->
-       let v = match ZfParser.rdata_validate r.ZfParser.rr_class r.ZfParser.rr_type r.ZfParser.rr_rdata with
-         | Res.Ok true -> "ok" | Res.Ok false -> "bad" | Res.Err _ -> "unmodelled" | Res.Panic -> "panic" in
-       Printf.sprintf "R%d o=%s t=%d c=%d y=%d d=%s v=%s" n (show_name r.ZfParser.rr_owner)
-         (int_of_n r.ZfParser.rr_ttl) (int_of_n r.ZfParser.rr_class) (int_of_n r.ZfParser.rr_type)
-         (hex r.ZfParser.rr_rdata) v
+     | ZfParser.CRecord r -> show_record n r
      | ZfParser.CInclude (p, o) ->
        Printf.sprintf "I%d p=%s o=%s" n (hex p) (match o with Some nm -> show_name nm | None -> "none"))
-  | Datatypes.Coq_inr (p, k) ->
-    Printf.sprintf "E%d:%d %s" (int_of_n p.ZfReader.p_line) (int_of_n p.ZfReader.p_col) (kind k)
+  | Datatypes.Coq_inr e -> show_error e
 
 (* after the iterator returned None: three more calls, count what they yield *)
 let after (p : ZfParser.coq_parser) =
@@ -82,6 +87,122 @@ let run_zf buf =
     String.concat " ; " (Stdlib.List.map show_item items @ ["after=" ^ after p])
   | Res.Err _ -> "outoffuel"
   | Res.Panic -> "panic"
+
+(* the records-only iterator (model of RecordsOnly) *)
+let run_zro buf =
+  let after p =
+    let rec go k p acc =
+      if k = 0 then string_of_int acc
+      else match ZfRecOnly.ro_next p with
+        | Res.Ok (Some _, p') -> go (k - 1) p' (acc + 1)
+        | Res.Ok (None, p') -> go (k - 1) p' acc
+        | Res.Err _ -> "outoffuel"
+        | Res.Panic -> "panic" in
+    go 3 p 0 in
+  match ZfRecOnly.ro_all buf with
+  | Res.Ok (items, p) ->
+    let show = function
+      | Datatypes.Coq_inl l -> show_record (int_of_n l.ZfRecOnly.ro_number) l.ZfRecOnly.ro_record
+      | Datatypes.Coq_inr e -> show_error e in
+    String.concat " ; " (Stdlib.List.map show items @ ["after=" ^ after p])
+  | Res.Err _ -> "outoffuel"
+  | Res.Panic -> "panic"
+
+(* ---- C23 `render` suite: decode the serialized abstract lines + choices (checks/zfcoq.py: ser_lines), render them with the
+   extracted Coq renderer (Spec/ZfRenderS.v) and compare with the Python rendering; the oracle column is what
+   Coq's number_lines says the file denotes ------------------------------------------------------------------------------ *)
+module R = ZfRenderS
+
+let decode_lines (ser : string) : R.aline list =
+  let toks = Array.of_list (String.split_on_char ',' ser) in
+  let i = ref 0 in
+  let next () = let t = toks.(!i) in incr i; t in
+  let int () = int_of_string (next ()) in
+  let n () = n_of_int (int ()) in
+  let nat () = nat_of_int (int ()) in
+  let bl () = next () = "1" in
+  let by () = unhex (next ()) in
+  let lst f = let k = int () in Stdlib.List.init k (fun _ -> f ()) in
+  let esc () = match int () with 0 -> R.ERaw | 1 -> R.EChar | _ -> R.EDec in
+  let escs () = lst esc in
+  let sitem () = match int () with
+    | 0 -> R.SOpen | 1 -> R.SClose | 2 -> R.SNl (bl ())
+    | _ -> let t = by () in let c = bl () in R.SComment (t, c) in
+  let sep () =
+    let gs = lst (fun () -> let b = by () in let it = sitem () in (b, it)) in
+    let tl = by () in { R.s_groups = gs; R.s_tail = tl } in
+  let term () = match int () with
+    | 0 -> R.TNl (bl ()) | 1 -> let t = by () in let c = bl () in R.TComment (t, c)
+    | 2 -> R.TEof | _ -> R.TCommentEof (by ()) in
+  let eol () = let s = sep () in let t = term () in { R.e_sep = s; R.e_term = t } in
+  let labels () = lst by in
+  let nch () = match int () with
+    | 0 -> R.NAt | 1 -> R.NAbs (lst escs)
+    | _ -> let k = nat () in let e = lst escs in R.NRel (k, e) in
+  let ich () = let p = bl () in let z = nat () in { R.i_plus = p; R.i_zeros = z } in
+  let sym () = match int () with
+    | 0 -> R.SymMnemonic (lst bl)
+    | _ -> let l = lst bl in let ic = ich () in R.SymNumeric (l, ic) in
+  let sch () = match int () with 0 -> R.SQuoted (escs ()) | _ -> R.SUnquoted (escs ()) in
+  let fch () = match int () with
+    | 0 -> R.CName (nch ()) | 1 -> R.CInt (ich ())
+    | 2 -> let d = lst nat in let u = lst bl in
+      let z = (match int () with 0 -> None | _ -> let i = nat () in let k = nat () in Some (i, k)) in
+      R.CIp6 { R.g_drop = d; R.g_upper = u; R.g_zip = z }
+    | 3 -> R.CStr (sch ())
+    | 5 -> (match int () with 0 -> R.CProto (R.PTcp (lst bl)) | 1 -> R.CProto (R.PUdp (lst bl)) | _ -> R.CProto (R.PNum (ich ())))
+    | _ -> R.CPlain in
+  let fval () = match int () with
+    | 0 -> R.VName (labels ()) | 1 -> R.VU16 (n ()) | 2 -> R.VU32 (n ()) | 3 -> R.VOct (n ())
+    | 4 -> let a = n () in let b = n () in let c = n () in let d = n () in R.VIp4 (a, b, c, d)
+    | 5 -> R.VIp6 (lst n) | 7 -> R.VProto (n ()) | 8 -> R.VPort (n ()) | _ -> R.VStr (by ()) in
+  let tcc () = match int () with
+    | 0 -> R.TcNone
+    | 1 -> let raw = n () in let ic = ich () in let s = sep () in R.TcT (raw, ic, s)
+    | 2 -> let sc = sym () in let s = sep () in R.TcC (sc, s)
+    | 3 -> let raw = n () in let ic = ich () in let s1 = sep () in let sc = sym () in let s2 = sep () in R.TcTC (raw, ic, s1, sc, s2)
+    | _ -> let sc = sym () in let s1 = sep () in let raw = n () in let ic = ich () in let s2 = sep () in R.TcCT (sc, s1, raw, ic, s2) in
+  let dch () = match int () with
+    | 0 -> R.DFields (lst (fun () -> let s = sep () in let f = fch () in (s, f)))
+    | _ -> let s0 = sep () in let s1 = sep () in let ic = ich () in
+      let ws = lst (fun () -> let so = (match int () with 0 -> None | _ -> Some (sep ())) in
+                              let u1 = bl () in let u2 = bl () in ((so, u1), u2)) in
+      R.DGeneric (s0, s1, ic, ws) in
+  let rdata () = match int () with 0 -> R.AFields (lst fval) | _ -> R.AGeneric (by ()) in
+  let line () = match int () with
+    | 0 ->
+      let lead = sep () in
+      let owner = (match int () with 0 -> None | _ -> let nc = nch () in let s = sep () in Some (nc, s)) in
+      let tc = tcc () in let ty = sym () in let rd = dch () in let e = eol () in
+      let o = labels () in let ttl = n () in let c = n () in let t = n () in let d = rdata () in
+      R.LRecord ({ R.rc_lead = lead; R.rc_owner = owner; R.rc_tc = tc; R.rc_type = ty; R.rc_rdata = rd; R.rc_end = e },
+                 { R.a_owner = o; R.a_ttl = ttl; R.a_class = c; R.a_type = t; R.a_rdata = d })
+    | 1 -> R.LBlank (eol ())
+    | 2 -> let l = lst bl in let s = sep () in let nc = nch () in let ls = labels () in let e = eol () in R.LOrigin (l, s, nc, ls, e)
+    | 4 -> let l = lst bl in let s = sep () in let pc = sch () in let path = by () in
+      let org = (match int () with 0 -> None | _ -> let s2 = sep () in let nc = nch () in let ls = labels () in Some ((s2, nc), ls)) in
+      let e = eol () in R.LInclude (l, s, pc, path, org, e)
+    | _ -> let l = lst bl in let s = sep () in let ic = ich () in let raw = n () in let e = eol () in R.LTtl (l, s, ic, raw, e) in
+  lst line
+
+let show_denoted (items : (BinNums.coq_N * R.aitem) list) =
+  let nm ls = Printf.sprintf "%s/%d" (hex (NameWireS.wire_of ls)) (Stdlib.List.length ls + 1) in
+  let one (ln, it) = match it with
+    | R.IRecord r ->
+      Printf.sprintf "R%d o=%s t=%d c=%d y=%d d=%s v=ok" (int_of_n ln) (nm r.R.a_owner)
+        (int_of_n r.R.a_ttl) (int_of_n r.R.a_class) (int_of_n r.R.a_type) (hex (R.rdata_wire r.R.a_rdata))
+    | R.IInclude (path, o) ->
+      Printf.sprintf "I%d p=%s o=%s" (int_of_n ln) (hex path) (match o with Some ls -> nm ls | None -> "none") in
+  String.concat " ; " (Stdlib.List.map one items @ ["after=0"])
+
+let run_zrc file expected ser =
+  let lines = decode_lines ser in
+  let coq_text = R.render lines in
+  let denoted = show_denoted (R.number_lines lines) in
+  if not (R.file_ok R.sctx0 lines) then "coq-file_ok=false | " ^ denoted
+  else if coq_text <> file then "coq-render=" ^ hex coq_text ^ " | " ^ denoted
+  else if denoted <> expected then "coq-denotes-differently | " ^ denoted
+  else run_zf file ^ " | " ^ denoted
 
 let show_uint max buf =
   if not (ZfStd.utf8_valid buf) then "badutf8"
@@ -104,12 +225,14 @@ let string_of_hex h =
 
 let () = run_lines (fun f ->
   match f with
+  | ["zrc"; _; hx; expected; ser] -> run_zrc (unhex hx) (string_of_hex expected) ser
   | ["zfx"; _; hx; expected] ->
     (* C23: the expected parse (computed by the generator from the abstract records) is the oracle *)
     run_zf (unhex hx) ^ " | " ^ string_of_hex expected
   | _ ->
   let m = match f with
     | ["zf"; _; hx] -> run_zf (unhex hx)
+    | ["zro"; _; hx] -> run_zro (unhex hx)
     | ["u8"; hx] -> show_uint ZfStd.coq_U8_MAX (unhex hx)
     | ["u16"; hx] -> show_uint ZfStd.coq_U16_MAX (unhex hx)
     | ["u32"; hx] -> show_uint ZfStd.coq_U32_MAX (unhex hx)
